@@ -51,6 +51,8 @@ enum ConsumerKind {
     Fb,
     Func,
     ClassMethod,
+    /// a TYPE block inside a consumer namespace whose USING directives reach the library types
+    TypeDecl,
 }
 
 pub struct NsUnit {
@@ -252,7 +254,14 @@ pub(super) fn gen_namespaces(rng: &mut Rng, names: &mut Names) -> NsUnit {
         let kind = if ci == 0 {
             ConsumerKind::Program
         } else {
-            *rng.pick(&[ConsumerKind::Program, ConsumerKind::Fb, ConsumerKind::Fb, ConsumerKind::Func, ConsumerKind::ClassMethod])
+            *rng.pick(&[
+                ConsumerKind::Program,
+                ConsumerKind::Fb,
+                ConsumerKind::Fb,
+                ConsumerKind::Func,
+                ConsumerKind::ClassMethod,
+                ConsumerKind::TypeDecl,
+            ])
         };
         // scope chain, outermost first; a few attempts to get an interesting one (an import repeated
         // on the chain and a usable name that two imported namespaces declare)
@@ -260,6 +269,8 @@ pub(super) fn gen_namespaces(rng: &mut Rng, names: &mut Names) -> NsUnit {
         for _attempt in 0..8 {
             let depth = match kind {
                 ConsumerKind::Fb | ConsumerKind::Func => *rng.pick(&[0usize, 0, 1, 2]),
+                // the namespace that holds the TYPE block is the "own" scope; 0-1 further ones around it
+                ConsumerKind::TypeDecl => *rng.pick(&[0usize, 0, 1]),
                 _ => 0,
             };
             let mut chain: Vec<Vec<usize>> = vec![file_scope.clone()];
@@ -313,7 +324,7 @@ pub(super) fn gen_namespaces(rng: &mut Rng, names: &mut Names) -> NsUnit {
         let usable: Vec<&PoolName> = pool.iter().filter(|p| checker_resolves(&chain, &p.decl).is_some()).collect();
 
         // declarations and statements from the usable names
-        let in_callable = matches!(kind, ConsumerKind::Func | ConsumerKind::ClassMethod);
+        let in_callable = matches!(kind, ConsumerKind::Func | ConsumerKind::ClassMethod | ConsumerKind::TypeDecl);
         let mut decls = String::new();
         let mut body = String::new();
         for (i, p) in usable.iter().enumerate() {
@@ -353,6 +364,7 @@ pub(super) fn gen_namespaces(rng: &mut Rng, names: &mut Names) -> NsUnit {
                 ConsumerKind::Fb => "FbNs",
                 ConsumerKind::Func => "FnNs",
                 ConsumerKind::ClassMethod => "ClsNs",
+                ConsumerKind::TypeDecl => "TyNs",
             },
         );
         let method = if kind == ConsumerKind::ClassMethod { names.fresh(rng, "Run") } else { String::new() };
@@ -366,9 +378,16 @@ pub(super) fn gen_namespaces(rng: &mut Rng, names: &mut Names) -> NsUnit {
             text.push_str(&using_text(rng, &chain[1 + d], &paths, 0));
             let _ = write!(qualified, "{ns}.");
         }
+        let type_ns = if kind == ConsumerKind::TypeDecl { names.fresh(rng, "Shapes") } else { String::new() };
+        if kind == ConsumerKind::TypeDecl {
+            let _ = write!(qualified, "{type_ns}.");
+        }
         qualified.push_str(&name);
         let own = using_text(rng, &chain[1 + depth], &paths, 0);
         match kind {
+            ConsumerKind::TypeDecl => {
+                let _ = writeln!(text, "NAMESPACE {type_ns}\n{own}TYPE\n    {name} : STRUCT\n        pad : DINT;\n{decls}    END_STRUCT;\nEND_TYPE\nEND_NAMESPACE");
+            }
             ConsumerKind::Program => {
                 let _ = writeln!(text, "PROGRAM {name}\n{own}VAR\n    o : DINT;\n    t : DINT;\n    acc : DINT;\n{decls}@INSTANCES@END_VAR\n{body}@CALLS@END_PROGRAM");
             }
@@ -417,6 +436,10 @@ pub(super) fn gen_namespaces(rng: &mut Rng, names: &mut Names) -> NsUnit {
                 let _ = writeln!(inst[host], "    k{i} : {};", c.qualified);
                 let _ = writeln!(calls[host], "t := k{i}.{}({});\no := (o + t) MOD 100000;", c.method, 1 + rng.below(9));
             }
+            ConsumerKind::TypeDecl => {
+                let _ = writeln!(inst[host], "    y{i} : {};", c.qualified);
+                let _ = writeln!(calls[host], "y{i}.pad := (y{i}.pad + 1) MOD 1000;");
+            }
             ConsumerKind::Program => {}
         }
     }
@@ -450,7 +473,7 @@ pub(super) fn gen_namespaces(rng: &mut Rng, names: &mut Names) -> NsUnit {
     if forms.iter().any(|f| *f >= 2) {
         tags.push("ns-nested-lib".into());
     }
-    for k in [ConsumerKind::Fb, ConsumerKind::Func, ConsumerKind::ClassMethod] {
+    for k in [ConsumerKind::Fb, ConsumerKind::Func, ConsumerKind::ClassMethod, ConsumerKind::TypeDecl] {
         if consumers.iter().any(|c| c.kind == k) {
             tags.push(format!("ns-consumer-{k:?}").to_lowercase());
         }
